@@ -59,7 +59,7 @@ def corrupt(want, how, stale='', stale_value=None):
 CORRUPTIONS = ['replaced', 'appended', 'prepended', 'dropped', 'stale', 'stalevalue']
 
 
-def build_c02(kinds, styles, want_choice, corruption, rng=None, sep_prob=0.0):
+def build_c02(kinds, styles, want_choice, corruption, rng=None, sep_prob=0.0, ignore_idx=()):
     """kinds: list of statement kinds; want_choice: list (per group) of None or an index into the
     candidate list; corruption: None or (group index, how)"""
     groups = [gd.Group(kind, k, style=styles[k % len(styles)]) for k, kind in enumerate(kinds)]
@@ -113,6 +113,18 @@ def build_c02(kinds, styles, want_choice, corruption, rng=None, sep_prob=0.0):
         expect = {'pfs': '010', 'kind': 'gotwant', 'fail_group': j,
                   'T': [g.k for g, r in zip(groups[:j + 1], ref) if r['runs']]}
         desc['corruption'] = [j, how]
+    ign = []
+    for j in ignore_idx:
+        # a want that is there but IGNORED (inline +IGNORE_WANT, junk text): never compared — and it still ends the window of
+        # "output since the previous want", exactly like a compared want
+        if j < len(groups) and groups[j].want is not None and chosen.get(j) != 'traceback' and (corruption is None or corruption[0] != j):
+            groups[j].want = 'junk that is never compared'
+            groups[j].inline = ['+IGNORE_WANT']
+            # on the statement that carries the want (kind funcdef = a definition followed by a call: the call)
+            groups[j].inline_line = (len(groups[j].lines) - 1) if groups[j].kind == 'funcdef' else 0
+            ign.append(j)
+    if ign:
+        desc['ignored_wants'] = ign
     text = gd.render(groups, rng=rng, sep_prob=sep_prob)
     return {'text': text, 'run': {}, 'expect': expect, 'desc': desc, 'groups': groups}
 
@@ -151,15 +163,18 @@ def c02_random(rng):
     corruption = None
     if rng.random() < 0.55:
         corruption = (rng.randrange(n), rng.choice(CORRUPTIONS))
-    sc = build_c02(kinds, styles, wc, corruption, rng=rng, sep_prob=0.25)
+    ign = ()
+    if rng.random() < 0.3:
+        ign = tuple(j for j in range(n) if rng.random() < 0.5 and (corruption is None or j < corruption[0]))
+    sc = build_c02(kinds, styles, wc, corruption, rng=rng, sep_prob=0.25, ignore_idx=ign)
     if sc is None:
-        sc = build_c02(kinds, styles, wc, None, rng=rng, sep_prob=0.25)
+        sc = build_c02(kinds, styles, wc, None, rng=rng, sep_prob=0.25, ignore_idx=ign)
     sc['run'] = {'on_error': rng.choice(['return', 'return', 'raise']), 'verbose': 0}
     return sc
 
 
 # ------------------------------------------------------------------ C03
-EXC_KINDS = ['raise', 'printraise', 'callraise', 'emptyraise', 'falsyraise', 'quietraise', 'callquietraise', 'awaitcallraise', 'awaitprintraise']
+EXC_KINDS = ['raise', 'printraise', 'callraise', 'emptyraise', 'falsyraise', 'quietraise', 'callquietraise', 'awaitcallraise', 'awaitprintraise', 'evalsyntax', 'compileindent']
 WANT_FORMS = ['none', 'exact', 'stack', 'wrongmsg', 'wrongtype', 'nontb', 'nontb_dots', 'nontb_hdronly', 'ellipsis', 'dotted', 'oldheader']
 
 
